@@ -12,13 +12,16 @@
 (*        dirty spare capacity): whatever lies behind the destination, the   *)
 (*        result is prefix ++ reference encoding (appends[], awl[].dst).     *)
 (*   R  : Read over arbitrary bytes (non-minimal encodings, truncations)     *)
+(*   Own: a sequence of calls by one goroutine whose results are all KEPT;   *)
+(*        no later call may change a result handed out earlier (history)     *)
 (*   TP : a parameter list through Marshal and through the                   *)
 (*        quic_transport_parameters extension writer                         *)
 (***************************************************************************)
 EXTENDS Varint, Json
 Trace == ndJsonDeserialize("varint_trace.ndjson")
-VARIABLES l, rej
-vars == <<l, rej>>
+VARIABLES l, rej,
+          held      \* ownership history: the results handed out so far in the current Own scenario, as last seen
+vars == <<l, rej, held>>
 
 P(o) == o.panic # ""
 
@@ -68,14 +71,45 @@ WhyTP(e) ==
   ELSE IF ~TPListExplained(e.ds, SubSeq(e.ext, 5, Len(e.ext)), FALSE) THEN "ext-body"
   ELSE ""
 
-Why(e) == CASE e.ev = "V" -> WhyV(e) [] e.ev = "R" -> WhyR(e) [] e.ev = "TP" -> WhyTP(e) [] OTHER -> "unknown-event"
+(* Ownership ("a value returned by Marshal / the extension writer / Append belongs to the caller"):
+   an Own scenario is a sequence of calls made by ONE goroutine on DIFFERENT objects; the harness keeps every
+   returned slice (kind marshal, append) resp. every extension object (kind ext) and after each call logs
+   `now`, the present contents of everything it holds, oldest first (a held slice is re-read, a held extension
+   is written again). The history `held` is this specification's memory of those results: a later call on
+   another object must not change any of them, and what a call returned is what the caller finds in its slice. *)
+OwnBaseWhy(e) ==
+  CASE e.kind = "append" ->
+         IF Refused(e.x) THEN (IF e.panic = "" THEN "append-not-refused" ELSE "")
+         ELSE IF e.panic # "" THEN "append-panic"
+         ELSE IF e.out # VarintEnc(e.x) THEN "append-bytes" ELSE ""
+    [] e.kind \in {"marshal", "ext"} ->
+         LET refused == \E k \in DOMAIN e.ds : TPRefused(e.ds[k]) IN
+         IF refused /\ e.panic = "" THEN "marshal-not-refused"
+         ELSE IF ~refused /\ e.panic # "" THEN "marshal-panic"
+         ELSE IF refused THEN ""
+         ELSE IF e.kind = "marshal" THEN (IF TPListExplained(e.ds, e.out, FALSE) THEN "" ELSE "marshal-body")
+         ELSE IF Len(e.out) < 4 \/ SubSeq(e.out, 1, 4) # SubSeq(QTPExt(SubSeq(e.out, 5, Len(e.out))), 1, 4) THEN "ext-header"
+         ELSE IF ~TPListExplained(e.ds, SubSeq(e.out, 5, Len(e.out)), FALSE) THEN "ext-body" ELSE ""
+    [] OTHER -> "unknown-event"
+Before(e) == IF e.step = 1 THEN <<>> ELSE held
+WhyOwn(e) ==
+  LET h == Before(e) IN
+  IF OwnBaseWhy(e) # "" THEN OwnBaseWhy(e)
+  ELSE IF Len(e.now) # Len(h) + (IF e.panic = "" THEN 1 ELSE 0) THEN "malformed-event"
+  ELSE IF \E i \in DOMAIN h : e.now[i] # h[i] THEN "retained-result-changed-by-a-later-call"
+  ELSE IF e.panic = "" /\ e.now[Len(e.now)] # e.out THEN "result-changed-after-return"
+  ELSE ""
+\* after a rejection the history is re-based on what is there now, so one overwrite is reported once
+NextHeld(e) == IF e.ev = "Own" THEN e.now ELSE held
+
+Why(e) == CASE e.ev = "V" -> WhyV(e) [] e.ev = "R" -> WhyR(e) [] e.ev = "TP" -> WhyTP(e) [] e.ev = "Own" -> WhyOwn(e) [] OTHER -> "unknown-event"
 Explained(e) == Why(e) = ""
 
-Init == l = 1 /\ rej = {}
-Good == l <= Len(Trace) /\ Explained(Trace[l]) /\ l' = l + 1 /\ UNCHANGED rej
-Skip == l <= Len(Trace) /\ ~Explained(Trace[l]) /\ l' = l + 1 /\ rej' = rej \cup {l}
+Init == l = 1 /\ rej = {} /\ held = <<>>
+Good == l <= Len(Trace) /\ Explained(Trace[l]) /\ l' = l + 1 /\ held' = NextHeld(Trace[l]) /\ UNCHANGED rej
+Skip == l <= Len(Trace) /\ ~Explained(Trace[l]) /\ l' = l + 1 /\ held' = NextHeld(Trace[l]) /\ rej' = rej \cup {<<l, Why(Trace[l])>>}
 Next == Good \/ Skip
 Report == (l = Len(Trace) + 1) =>
             /\ PrintT(<<"DONE", l - 1>>)
-            /\ \A i \in rej : PrintT(<<"REJ", i, Why(Trace[i])>>)
+            /\ \A r \in rej : PrintT(<<"REJ", r[1], r[2]>>)
 =============================================================================
